@@ -36,7 +36,7 @@ func needSpace(a, b string) bool {
 	return false
 }
 
-var c18Seps = []string{" ", " ", "\t", "\n", "\r\n", "  ", " \n ", "\n\n", " # note\n", "\n# a comment with \"quote\" and %\n", "\t \t"}
+var c18Seps = []string{" ", " ", "\t", "\n", "\r\n", "  ", " \n ", "\n\n", " # note\n", "\n# a comment with \"quote\" and %\n", "\t \t", " # one\n # two\n", "\n# a\n\n# b\n# c\n", " # crlf one\r\n# crlf two\r\n", " #\n"}
 
 func gap(r *core.Rng, a, b string, allowGlue bool) string {
 	if allowGlue && !needSpace(a, b) && r.Chance(1, 3) {
